@@ -311,7 +311,10 @@ Inductive op :=
 | ODeposit (c k : Z) (r : recv) (a : Z) (f : fault)
 | OCreateBatch (h now : Z) (f : fault)
 | OSweep (now : Z) (f : fault)
-| OEndBlock (h now : Z) (f : fault).
+| OEndBlock (h now : Z) (f : fault)
+| OGov.   (* governance changes the bridge tax rate / exemption list (or limits) of a denom: the
+             settings live outside the bridge's fund state; what a pending transfer owes was fixed
+             when it was sent ([t_tax]) *)
 
 Definition step3 (s : state) (o : op) : state * outcome * nat :=
   match o with
@@ -325,6 +328,7 @@ Definition step3 (s : state) (o : op) : state * outcome * nat :=
   | OCreateBatch h now f => create_batch f 0%nat h now s
   | OSweep now f => sweep f 0%nat now s
   | OEndBlock h now f => end_block f h now s
+  | OGov => (s, Ok, 0%nat)
   end.
 Definition step (s : state) (o : op) : state * outcome := fst (step3 s o).
 Definition run (s : state) (ops : list op) : state := fold_left (fun s o => fst (step s o)) ops s.
